@@ -39,8 +39,11 @@ the pair, a surrogate escape that is not part of such a pair denotes no scalar v
 Duplicate member names are kept, in text order, as the `Json` association list keeps them (which occurrence a consumer sees is
 the consumer's business: `Json.get?`).
 
-Recursion: the string scanners are structurally recursive on the text; `value / elements / members` take explicit fuel, of which
-`2 * length + 2` is always enough (every two nested calls consume a character). No `partial`, kernel-evaluable.
+Recursion: explicit fuel everywhere, structural on the fuel. The string scanners consume at least one character per call and get
+`length + 1`; `value / elements / members` get `fuelFor text = 2 * length + 2` (every two nested calls consume a character).
+PROVED (`Lemmas/JsonTextFuel.lean fuel_enough`, `Props/C12Text.lean json_reader_fuel_independent`): for every text, an answer
+obtained with some fuel is obtained with every larger fuel and with `fuelFor`; the fuel is a device for totality only.
+No `partial`, kernel-evaluable.
 Core Lean only.
 -/
 import NitroVerif.Base.Json
@@ -208,7 +211,7 @@ def members (L : Lex) : Nat → List Char → Option (List (String × Json) × L
       else none
 end
 
-/-- fuel that is always enough: every two nested calls consume at least one character -/
+/-- the fuel a whole text gets (see the header) -/
 def fuelFor (s : List Char) : Nat := 2 * s.length + 2
 
 /-- a whole text: `ws value ws` and nothing else -/
@@ -272,8 +275,7 @@ def simpleEscape (e : Char) : Option Char :=
   else if e = 't' then some '\t'
   else none
 
-/-- `*char quotation-mark`: the characters denoted and the text behind the closing quotation mark.
-    Structurally recursive on the text (fuel = its length would do the same). -/
+/-- `*char quotation-mark`: the characters denoted and the text behind the closing quotation mark (one unit of fuel per call) -/
 def strBodyFuel : Nat → List Char → Option (List Char × List Char)
   | 0, _ => none
   | _ + 1, [] => none
